@@ -1,5 +1,6 @@
 import RSVerif.Model.KeyFilter
 import RSVerif.Spec.CommandKeys
+import RSVerif.Drive.C03
 /- line protocol for C13: what the SPECIFICATION (Spec.CommandKeys.filterSpec) predicts for each case of
    go/harness/c13.go; where the spec makes no demand (argument count not valid for the command, or a `row`
    case that calls getMatchKeys on an explicit row) the line is the model's outcome. -/
@@ -28,8 +29,29 @@ def renderModel : KeyFilter.M (List Bytes × Bool) → String
 
 def toInt? (s : String) : Option Int := s.toInt?
 
+/-- `seq`: a command stream through the parser model of C03 with THIS property's specification as the key filter:
+    every command gets the verdict it gets alone (`filterSpec`), whatever came before it -/
+def seqLine (pc startDb base cmds : String) : String :=
+  match RSVerif.Drive.C03.parsePcfg pc, startDb.toInt?, base.toInt?, RSVerif.Drive.C03.parseCmds cmds with
+  | some p, some sd, some b, some cs =>
+    let scfg : FilterCfg := ⟨p.kw, p.kb⟩
+    let mcfg : KeyFilter.Config := ⟨p.kw, p.kb⟩
+    let kf (cmd : String) (args : List Bytes) : List Bytes × Bool :=
+      match filterSpec scfg (RSVerif.Drive.C03.stringToBytes cmd) args with
+      | some (.forward a) => (a, false)
+      | some .drop => (args, true)
+      | none =>
+        match KeyFilter.handle mcfg (RSVerif.Drive.C03.stringToBytes cmd) args with
+        | .ok r => r
+        | .error _ => (args, false)
+    let cfg := { p.toCfg with keyFilter := kf }
+    let (items, ab) := RSVerif.IncrParse.parseFull cfg sd b cs
+    s!"items={RSVerif.Drive.C03.fmtItems items} abort={if ab then 1 else 0}"
+  | _, _, _, _ => "badcase"
+
 def handle (line : String) : String :=
   match line.splitOn " " with
+  | ["seq", pc, sd, b, cmds] => seqLine pc sd b cmds
   | op :: wl :: bl :: rest =>
     match parseList wl, parseList bl with
     | some wl, some bl =>
